@@ -18,7 +18,10 @@ def main():
   rgen = reportgen.emit(vlib.GEN)
   from translate import lingen
   lgen = lingen.emit(vlib.GEN)
-  info = vlib.build_obligations(PROP, gen_files=[rgen, lgen], extra_files=[os.path.join(vlib.COQ, "theories", "Link", "ReportLink.v"), os.path.join(vlib.COQ, "theories", "Link", "LinLink.v")])
+  from translate import qbitsgen
+  qgen = qbitsgen.emit(vlib.GEN)
+  LK = os.path.join(vlib.COQ, "theories", "Link")
+  info = vlib.build_obligations(PROP, gen_files=[rgen, lgen, qgen], extra_files=[os.path.join(LK, "ReportLink.v"), os.path.join(LK, "LinLink.v"), os.path.join(LK, "QBitsLink.v")])
   errs = rep.obligations(info, "coqc -Q coq/theories QV coq/theories/Properties/C01.v (Print Assumptions under every theorem)")
   for e in errs:
     rep.violation("obligation-" + os.path.basename(e["file"]), "proof obligation no longer checks: " + e["error"][-400:],
